@@ -443,9 +443,9 @@ class Interp:
                     raise Throw(ERR)
                 if k in done:
                     return
+                v = self.ev(body[2], ee)      # a value expression that leaves the iteration (continue / break) registers nothing for its key
                 if k not in acc:
                     acc[k] = Cata(self, into if into else ("list" if post is not None else "last"))
-                v = self.ev(body[2], ee)
                 try:
                     acc[k].give(v)
                 except Break as b:
